@@ -1,16 +1,156 @@
 /-
-C17 — literal-only LZMA/XZ (lib/litonlylzma): property theorems over `Model/Lzma.lean`.
+C17 — literal-only LZMA/XZ (lib/litonlylzma): lossless round trip, total decoder.
+Property theorems over `Model/Lzma.lean` (which mirrors lib/litonlylzma/litonlylzma.go function by
+function).  Helper lemmas live in `Proof/Lzma*.lean`.
+
+Conformance of the encodings to FULL LZMA/XZ decoders (`xz_conformance`) is not a theorem here: it is
+covered by the tie only (xz tool, Wuffs std/lzma + std/xz on every generated payload).
 -/
-import WuffsVerif.Model.Lzma
+import WuffsVerif.Proof.LzmaContainer
 
 namespace WuffsVerif.Props.C17
 open WuffsVerif.Lzma
 
-/-- `probUp`/`probDown` keep a probability inside `[31, 2017]`. -/
+/-! ## prob_range -/
+
+/-- `prob_range`, one step: both adaptation directions keep a probability inside `[31, 2017]`
+    (so `threshold` is never 0 and never the whole width). -/
 theorem prob_step_range (p : Nat) (h : 31 ≤ p ∧ p ≤ 2017) :
-    (31 ≤ probUp p ∧ probUp p ≤ 2017) ∧ (31 ≤ probDown p ∧ probDown p ≤ 2017) := by
-  unfold probUp probDown maxProb minProb probBits adaptShift
-  simp only [Nat.shiftRight_eq_div_pow]
-  omega
+    (31 ≤ probUp p ∧ probUp p ≤ 2017) ∧ (31 ≤ probDown p ∧ probDown p ≤ 2017) :=
+  ⟨probUp_ok h, probDown_ok h⟩
+
+/-- the bounds are attained: 2017 and 31 are fixed points, 2016 still moves up, 32 still moves down -/
+example : probUp 2017 = 2017 ∧ probUp 2016 = 2017 ∧ probDown 31 = 31 ∧ probDown 32 = 31 := by decide
+
+/-- `prob_range` for the encoder: every probability `encodeBit` leaves behind is in range. -/
+theorem prob_range_encodeBit (p : Nat) (e : RangeEncoder) (b : Nat) (h : ProbOK p) :
+    ProbOK (encodeBit p e b).1 := by
+  rw [encodeBit_eq]
+  split
+  · exact probUp_ok h
+  · exact probDown_ok h
+
+/-- `prob_range` for the decoder, on ARBITRARY input (no assumption on `d`). -/
+theorem prob_range_decodeBit (p : Nat) (d : RangeDecoder) (b p' : Nat) (d' : RangeDecoder) (h : ProbOK p)
+    (hd : decodeBit p d = some (b, p', d')) : ProbOK p' := by
+  unfold decodeBit at hd
+  dsimp only at hd
+  split at hd
+  · split at hd
+    · split at hd
+      · cases hd
+      · cases hd; exact probUp_ok h
+    · cases hd; exact probUp_ok h
+  · split at hd
+    · split at hd
+      · cases hd
+      · cases hd; exact probDown_ok h
+    · cases hd; exact probDown_ok h
+
+/-- `prob_range` for the tables: `encodeByte` keeps every entry of the probability table in range … -/
+theorem prob_range_encodeByte (probs : Array Nat) (base : Nat) (e : RangeEncoder) (bv : UInt8)
+    (hv : Valid e) (hp : ProbsOK probs) : ProbsOK (encodeByte probs base e bv).1 :=
+  (byte_ok base bv probs e hv hp).2.1
+
+/-- … and so does `decodeByte`, whatever the input bytes are. -/
+theorem prob_range_decodeByteLoop (base : Nat) : ∀ (n index : Nat) (probs : Array Nat) (d : RangeDecoder)
+    (r : Nat × Array Nat × RangeDecoder), ProbsOK probs →
+    decodeByteLoop base n index probs d = some r → ProbsOK r.2.1 := by
+  intro n
+  induction n with
+  | zero =>
+    intro index probs d r hp h
+    simp only [decodeByteLoop] at h
+    cases h; exact hp
+  | succ n ih =>
+    intro index probs d r hp h
+    simp only [decodeByteLoop] at h
+    split at h
+    · cases h
+    · rename_i bitValue p' d' hd
+      exact ih _ _ _ r (probsOK_set hp _ _ (prob_range_decodeBit _ _ _ _ _ (hp _) hd)) h
+
+/-! ## rc_invariant -/
+
+/-- `shiftLow`, the carry lemma: the number denoted by (bytes emitted, pending head, pending 0xFF run, low)
+    is multiplied by exactly 256 in each of the three branches — in the carry branch (`low ≥ 2^32`) the
+    carry is added to `pendingHead` and propagates through a pending run of ANY length, turning it into
+    0x00 bytes.  The side condition `pendingHead < 255` when there is a carry follows from the interval
+    invariant (`Inv.j`, see `normalize_spec`). -/
+theorem shiftLow_carry (e : RangeEncoder) (hlow : e.low < 2 ^ 33)
+    (hc : 2 ^ 32 ≤ e.low → e.pendingHead.toNat < 255) :
+    Lval e.shiftLow = 256 * Lval e ∧ (digits e.shiftLow).length = (digits e).length + 1 ∧
+    e.shiftLow.width = e.width ∧ e.shiftLow.low < 2 ^ 32 :=
+  shiftLow_spec e hlow hc
+
+/-- non-vacuity, a carry through a run of three pending 0xFF bytes: 12 FF FF FF | 1_00000005 → 13 00 00 00 | 00… -/
+example : (RangeEncoder.shiftLow ⟨#[], 0x100000005, 0x1000000, 0x12, 3⟩).dst = #[0x13, 0, 0, 0] := by decide
+
+/-- `rc_invariant`.  (1) the initial state is valid; (2) every `encodeBit` with an in-range probability keeps
+    the state valid, and a code that lies in the interval `[L, L + width)` after the bit lay in it before
+    the bit (intervals are nested, at every scale); (3) the flush emits exactly `L`, so the final output
+    lies in the final interval — hence, by (2), in the interval of EVERY earlier state; (4) a decoder that
+    holds `(bits, width) = (code − L, width)` before the bit decodes the same bit, adapts the probability
+    identically, and holds `(code − L', width')` afterwards. -/
+theorem rc_invariant :
+    Valid encInit ∧
+    (∀ (p : Nat) (e : RangeEncoder) (b : Nat), Valid e → ProbOK p →
+        Valid (encodeBit p e b).2 ∧ ∀ out, Inside (encodeBit p e b).2 out → Inside e out) ∧
+    (∀ e : RangeEncoder, Valid e → Inside e e.flush.dst.toList ∧ e.flush.dst.toList.length = nDig e) ∧
+    (∀ (p : Nat) (e : RangeEncoder) (d : RangeDecoder) (out tail : List UInt8) (b : Nat),
+        Valid e → ProbOK p → (b = 0 ∨ b = 1) → Sync e d out tail → Inside (encodeBit p e b).2 out →
+        ∃ d', decodeBit p d = some (b, (encodeBit p e b).1, d') ∧ Sync (encodeBit p e b).2 d' out tail) := by
+  refine ⟨encInit_valid, ?_, ?_, ?_⟩
+  · intro p e b hv hp
+    rw [encodeBit_eq]
+    exact ⟨encodeBit_valid b hv hp, fun out h => encodeBit_inside b hv hp h⟩
+  · intro e hv
+    obtain ⟨flen, fval⟩ := flush_spec e hv
+    have hw := hv.wlo
+    refine ⟨⟨by omega, ?_, ?_⟩, flen⟩
+    · rw [← flen, List.take_length, fval]; omega
+    · rw [← flen, List.take_length, fval]; omega
+  · intro p e d out tail b hv hp hb hs hin
+    rw [encodeBit_eq] at hin
+    exact decodeBit_sync b hv hp hb hs hin
+
+/-! ## round trips -/
+
+/-- `raw_roundtrip`: `decodeRaw (encodeRaw src) |src| = (src, [], ok)` — stated with an arbitrary `dst` to
+    append to, an arbitrary `tail` after the code (returned untouched) and either `errUnsupported`. -/
+theorem raw_roundtrip (dst : Array UInt8) (src tail : List UInt8) (eu : Err) :
+    decodeRaw dst ((encodeRaw #[] src).toList ++ tail) src.length eu = (pushList dst src, tail, Err.ok) :=
+  raw_roundtrip_tail dst src tail eu
+
+/-- the instance the property statement names: nothing before, nothing after -/
+theorem raw_roundtrip_exact (src : List UInt8) :
+    decodeRaw #[] (encodeRaw #[] src).toList src.length Err.unsupportedLZMA
+      = (src.toArray, [], Err.ok) := by
+  have := raw_roundtrip #[] src [] Err.unsupportedLZMA
+  rw [List.append_nil] at this
+  rw [this]
+  congr 1
+  apply Array.ext'
+  rw [pushList_toList]; simp
+
+/-- `lzma_roundtrip`: `FileFormatLZMA.Decode(Encode(src)) = (src, nothing left over, nil)`, for every byte
+    string whose length fits the header's int64 size field. -/
+theorem lzma_roundtrip (src : List UInt8) (hlen : src.length < 2 ^ 63) :
+    decodeLZMA #[] (encodeLZMA #[] src).toList = (src.toArray, [], Err.ok) := by
+  have := lzma_roundtrip_tail #[] src [] hlen
+  rw [List.append_nil] at this
+  rw [this]
+  congr 1
+  apply Array.ext'
+  rw [pushList_toList]; simp
+
+/-- … and with trailing bytes after the encoding, they are exactly what is left over. -/
+theorem lzma_roundtrip_tail' (dst : Array UInt8) (src tail : List UInt8) (hlen : src.length < 2 ^ 63) :
+    decodeLZMA dst ((encodeLZMA #[] src).toList ++ tail) = (pushList dst src, tail, Err.ok) :=
+  lzma_roundtrip_tail dst src tail hlen
+
+/-- non-vacuity / sanity: the empty input and a short one, by evaluation -/
+example : decodeLZMA #[] (encodeLZMA #[] []).toList = (#[], [], Err.ok) := by decide
+example : (encodeLZMA #[] []).toList = [0x5D, 0, 0x10, 0, 0, 0, 0, 0, 0, 0, 0, 0, 0, 0, 0, 0, 0, 0] := by decide
 
 end WuffsVerif.Props.C17
